@@ -9,12 +9,23 @@ def enc_int(n):
     n = int(n)
     return {"t": "int", "neg": n < 0, "mag": _mag(n)}
 
+class _Budget:
+    left = 0
+
 def enc(v, depth=0):
     """Python value -> tagged JSON. Keys starting with '_' are dropped from dict-likes
-    (Container.__eq__ ignores them; they hold _io, _flagsenum and context plumbing)."""
+    (Container.__eq__ ignores them; they hold _io, _flagsenum and context plumbing).
+    A value with more than 4000 nodes or a byte/str payload above 4096 is reported as opaque ("huge")."""
     from construct import EnumIntegerString
-    if depth > 40:
-        return {"t": "opaque", "r": "deep"}
+    if depth == 0:
+        _Budget.left = 4000
+    _Budget.left -= 1
+    if depth > 40 or _Budget.left < 0:
+        return {"t": "opaque", "r": "huge"}
+    if isinstance(v, (bytes, bytearray, memoryview, str)) and len(v) > 4096:
+        return {"t": "opaque", "r": "huge"}
+    if isinstance(v, (list, tuple, dict)) and len(v) > 4000:
+        return {"t": "opaque", "r": "huge"}
     if v is None:
         return {"t": "none"}
     if isinstance(v, bool):
